@@ -365,6 +365,10 @@ class DataSource(metaclass=ABCMeta):
         if not source_only:
             results.extend(self.query(filters + [Filter('target_ref', '=', obj_id)]))
 
+        if not source_only and not target_only and results:
+            # a relationship from the object to itself satisfies both queries
+            results = deduplicate(results)
+
         return results
 
     def related_to(self, obj, relationship_type=None, source_only=False, target_only=False, filters=None):
